@@ -113,6 +113,38 @@ def prefix_parts(prefix, add_sym):
         return [prefix] + ([('sym', 'b0', S.ASCII)] if add_sym else [])
     return f
 
+def layout_parts(n, tail):
+    """n symbolic layout bytes (CR, LF, space, tab, `#`) and then a token that cannot start a statement"""
+    def f(): return [('sym', 'b%d' % i, S.in_set(list(b'\r\n \t#'))) for i in range(n)] + [tail]
+    return f
+
+def source_constants(lo=8, hi=512):
+    """integer constants that occur in the current source (comments stripped): lengths at which a slice, a truncation or a buffer may end"""
+    import glob as _glob
+    from mirsym import build
+    ks = set()
+    for f in _glob.glob(os.path.join(build.REPO, 'src', '**', '*'), recursive=True):
+        if not f.endswith(('.rs', '.lalrpop')): continue
+        src = re.sub(r'//[^\n]*', '', open(f, errors='replace').read())
+        for m in re.finditer(r'(?<![\w.])(\d[\d_]*)(?:usize|u8|u32|u64|i64)?\b', src):
+            try: v = int(m.group(1).replace('_', ''))
+            except ValueError: continue
+            if lo <= v <= hi: ks.add(v)
+    return sorted(ks | {16, 32, 64})
+
+def long_token_parts(kind, pad, width):
+    """a token whose payload is `pad` ASCII bytes followed by one symbolic character of `width` bytes, in a position where it is the unexpected token"""
+    import z3 as _z
+    def f():
+        if width == 2: mb = [('sym', 'b0', lambda b: _z.And(_z.UGE(b, 0xC2), _z.ULE(b, 0xDF))), ('sym', 'b1', lambda b: _z.And(_z.UGE(b, 0x80), _z.ULE(b, 0xBF)))]
+        else: mb = [('sym', 'b0', lambda b: _z.And(_z.UGE(b, 0xE1), _z.ULE(b, 0xEC))), ('sym', 'b1', lambda b: _z.And(_z.UGE(b, 0x80), _z.ULE(b, 0xBF))), ('sym', 'b2', lambda b: _z.And(_z.UGE(b, 0x80), _z.ULE(b, 0xBF)))]
+        if kind == 'string': return [b'x := 1 "' + b'a' * pad] + mb + [b'aa"\n']
+        if kind == 'istring': return [b'x := 1 $"' + b'a' * pad] + mb + [b'aa"\n']
+        if kind == 'ident': return [b'x := 1 ' + b'a' * pad] + mb + [b'aa\n']
+        if kind == 'comment': return [b'x := 1 # ' + b'a' * pad] + mb + [b'aa\n)']
+        raise ValueError(kind)
+    return f
+
 def run(tier, seed):
     c = common.Check('C03', tier, seed, 'symbolic execution of main (MIR) over symbolic source bytes (evaluation stubbed at eval_prog): panic-freedom, diagnostic form and line bound decided by z3 per path; acceptance compared with the reference front end on each path witness; native replay')
     c.functions |= {'main', 'run', 'Scanner::*', 'Lexer::* (all)', 'match_single/double/triple_symbol_token', '<Token as Clone/PartialEq>', 'lalrpop_util driver (model)', '__parse__Prog::__action/__goto/__reduce*/__actionN (generated)',
@@ -125,6 +157,18 @@ def run(tier, seed):
     else:
         sjobs = [make_job('bytes-1', sym_parts(1)), make_job('bytes-2', sym_parts(2)), make_job('bytes-3', sym_parts(3)), make_job('punct-4', sym_parts(4, alphabet=PUNCT))]
         nprefix = 3000
+    # runs of layout bytes before an offending token (the line bound for CR / LF / tab / comment mixes)
+    nlay = 4 if tier == 'quick' else 5
+    ljobs = [make_job('layout-%d-lexerr' % nlay, layout_parts(nlay, b'@')), make_job('layout-%d-parseerr' % nlay, layout_parts(nlay, b')'))]
+    # long tokens: a multi-byte character placed at every length constant that occurs in the current source (a truncation, a buffer or a
+    # slice bound of the front end would sit there), as the unexpected token of a syntax error
+    ks = source_constants()
+    tjobs = []
+    for k in ks:
+        for d in ((-2, -1, 0) if tier == 'quick' else (-3, -2, -1, 0, 1)):
+            for w in (2, 3):
+                for kind in (('string', 'ident') if tier == 'quick' else ('string', 'istring', 'ident', 'comment')):
+                    if k + d >= 0: tjobs.append(make_job('longtok-%s-%d%+d-w%d' % (kind, k, d, w), long_token_parts(kind, k + d, w)))
     tests = H.load_tests()
     rng = random.Random(seed * 7919 + 13)
     pjobs = []
@@ -147,5 +191,9 @@ def run(tier, seed):
     big = [j for j in sjobs if j['name'] in ('punct-3', 'punct-4', 'bytes-3')]; small = [j for j in sjobs if j not in big]
     for j in big: c.run_jobs('symbolic-bytes', [j], par_jobs=1, par_paths=16, timeout=3000)
     c.run_jobs('symbolic-bytes', small, par_jobs=len(small), par_paths=max(2, 16 // max(1, len(small))), timeout=3000)
+    c.run_jobs('layout-runs', ljobs, par_jobs=2, par_paths=8, timeout=3000)
+    c.run_jobs('long-tokens', tjobs, par_jobs=16, par_paths=1)
+    c.bounds['layout_runs'] = 'every string of %d bytes over {CR, LF, space, tab, #} followed by `@` (lexical error) or `)` (syntax error)' % nlay
+    c.bounds['long_tokens'] = '%d inputs: string / identifier%s tokens as the unexpected token, whose payload is k-2..k ASCII bytes and then any 2- or 3-byte character, for k in %s (the integer constants of the current source plus 16, 32, 64)' % (len(tjobs), '' if tier == 'quick' else ' / interpolated string / comment', ks)
     c.run_jobs('truncations', pjobs, par_jobs=12, par_paths=1)
     return c.finish()
